@@ -257,6 +257,8 @@ def main():
         rep.extra['note'] = 'no accepting path in this run: validation rejected every explored tree, the implication is vacuous'
     from harness import k_lemmas
     k_lemmas.run_into(rep, ['k_taste_good', 'k_taste_bad', 'k_read'])
+    from harness import conformance
+    conformance.run_into(rep)
     return rep.finish()
 
 
